@@ -6,18 +6,23 @@ import KdVerif.Model.ContainerV3
 
     * `seek_until(reader, data)`                                   (a procedure with one bytes parameter)
     * `KdBufParser.parse_v2`                                        (whole generator)
-    * `KdBufParser.parse_v3` up to the end of the chunk loop        (header, both scans, thread map, chunk loop)
+    * `KdBufParser.parse_v3`                                        (whole generator: header, both scans, thread map,
+                                                                     chunk loop, `reader.seek(-8, 1)`, the additional-data
+                                                                     blocks with their if/elif dispatch, the log loop)
     * `KdBufParser.set_thread_map`                                  (`SetTm`)
     * `KdBufParser.parse` + the `self.versions` dict display        (`Dispatch`)
 
   `tools/gen_pyir_rd.py` translates the source text into terms of this IR (`Gen/PyIRRd.lean`) on every run;
   `Props/C02|C03|C06` prove that the translated code, run by this interpreter, IS `seekUntil` / `parseV2` /
-  the prefix of `parseV3` / `setThreadMap` / the dispatch of `parse` of the hand model — for every byte string.
+  `parseV3` / `setThreadMap` / the dispatch of `parse` of the hand model — for every byte string.
 
   The reader is the model's positional `Reader` (with its read counters, so the interpreted source makes the SAME
   read calls as the model).  The `construct` parsers (`kd_header_v2.parse_stream`, `Int64ul.parse_stream`, …) are
   PRIMITIVES whose meaning is the existing model function (`headerV2`, `int64ul`, …: tied to the library by the
-  correspondence sections).  `from_kd_buf` is the parameter `dec`.  A `while` loop gets `unread bytes + 2`
+  correspondence sections); `kd_v3_additional_data.parse_stream` is the primitive `greedyRange blockElem …` exactly as
+  the model's `tailV3` uses it.  `from_kd_buf` is the parameter `dec`, `plistlib.loads` the parameter `plist` (a loaded
+  plist is carried as its payload and the `PView` of it: what the container parser looks at),
+  `OsLogEvent.from_raw_log_event` the model's `fromRawLog`.  A `while` loop gets `unread bytes + 2`
   iterations of fuel at its entry: every loop of this code consumes at least one byte per iteration that goes on, a
   loop that does not is reported as `.hang` (that is what the pre-fix `seek_until` did at end of file).
   Outside the modelled behaviour: `.error .unmodelled`.  Core Lean only.
@@ -28,6 +33,7 @@ open Gen.Consts
 /-- module-level bytes constants of kd_buf_parser.py (values: `Gen/Consts`, reflected on every run) -/
 inductive BConst
   | v2 | v3 | stackshotEnd | threadmapTag | eventsTag | moreEvents
+  | dyldModules | traceCodes | processes | kernelExtensions | images | logEvents | logStrings
   deriving DecidableEq, Repr
 
 def BConst.val : BConst → Bytes
@@ -37,6 +43,13 @@ def BConst.val : BConst → Bytes
   | .threadmapTag => TRACEV3_THREADMAP_TAG
   | .eventsTag => TRACEV3_EVENTS_TAG
   | .moreEvents => TRACEV3_MORE_EVENTS
+  | .dyldModules => TRACEV3_DYLD_MODULES
+  | .traceCodes => TRACEV3_TRACE_CODES
+  | .processes => TRACEV3_PROCESSES
+  | .kernelExtensions => TRACEV3_KERNEL_EXTENSIONS
+  | .images => TRACEV3_IMAGES
+  | .logEvents => TRACEV3_LOG_EVENTS
+  | .logStrings => TRACEV3_LOG_STRINGS
 
 /-- module-level int constants -/
 inductive IConst
@@ -54,7 +67,35 @@ inductive BE
   | lit (b : Bytes)
   | dropFrom (e : BE) (k : Nat)         -- `e[k:]`
   | cat (a b : BE)                      -- `a + b`
+  | blockTag (v : Nat)                  -- `v.tag`  (`v` an element of the additional data)
+  | blockData (v : Nat)                 -- `v.data`
   | unsupported (src : String)
+  deriving DecidableEq, Repr
+
+/-- loaded plists -/
+inductive PE
+  | var (i : Nat)
+  | loads (e : BE)                      -- `plistlib.loads(e)`
+  | unsupported (src : String)
+  deriving DecidableEq, Repr
+
+/-- attributes of thread-map entries (`thread.tid` / `.pid` / `.process`) and of log events
+    (`log_event.thread_identifier` / `.process_identifier` / `.process`) -/
+inductive Field | tid | pid | process
+  deriving DecidableEq, Repr
+
+inductive DictId | threadsPids | pidsNames
+  deriving DecidableEq, Repr
+
+/-- the parser attributes `parse_v3` rebuilds from the additional data -/
+inductive Attr | traceCodes | kernelExtensions | dyldModules | images | processes
+  deriving DecidableEq, Repr
+
+/-- the displays those attributes are reset to -/
+inductive InitVal
+  | emptyStr                            -- `''`
+  | emptyDict                           -- `{}`
+  | binariesDict                        -- `{'Binaries': []}`
   deriving DecidableEq, Repr
 
 /-- int-valued expressions (all values of this code are non-negative) -/
@@ -74,6 +115,8 @@ inductive Cond
   | eq (a b : BE)
   | isEmpty (e : BE)                    -- `not e`
   | nonEmpty (e : BE)                   -- `e`
+  | and (a b : Cond)                    -- `a and b` (as a condition: short-circuit)
+  | fieldTruthy (v : Nat) (f : Field)   -- `v.<f>` as a condition (`v` a log event)
   | unsupported (src : String)
   deriving DecidableEq, Repr
 
@@ -83,6 +126,7 @@ inductive Prim
   | headerV3                            -- `Aligned(8, kd_header_v3).parse_stream(reader)` → `self.v3_header`
   | threadmapV3                         -- `kd_v3_threadmap.parse_stream(reader).threadmap`
   | int64ul                             -- `Int64ul.parse_stream(reader)`
+  | additionalData                      -- `kd_v3_additional_data.parse_stream(reader)`    → the (tag, data) blocks
   deriving DecidableEq, Repr
 
 inductive Stmt
@@ -100,6 +144,23 @@ inductive Stmt
   | callSeek (e : BE)                   -- `seek_until(reader, e)`
   | prim (p : Prim) (v : Nat)           -- `v = <construct parser>(reader)` (headerV3: `self.v3_header = …`)
   | setThreadMap (v : Nat)              -- `self.set_thread_map(v)` (`v.threadmap` for the v2 header)
+  -- the tail of `parse_v3`
+  | seekRel (k : Nat)                   -- `reader.seek(-k, 1)`
+  | setAttrInit (a : Attr) (v : InitVal)    -- `self.<a> = '' | {} | {'Binaries': []}`
+  | newList (v : Nat)                   -- `v = []`
+  | newDict (v : Nat)                   -- `v = {}`
+  | forIn (x c : Nat) (body : Stmt)     -- `for x in c: body` (`c` a local: the additional data / the raw log events)
+  | assignP (v : Nat) (p : PE)          -- `v = plistlib.loads(…)`
+  | iteAttrEmpty (a : Attr) (t e : Stmt)    -- `if not self.<a>: t else: e`
+  | attrUpdate (a : Attr) (p : PE)      -- `self.<a>.update(p)`
+  | binExtend (a : Attr) (p : PE)       -- `self.<a>['Binaries'].extend(p['Binaries'])`
+  | strAppendDecoded (a : Attr) (e : BE)    -- `self.<a> += e.decode()`
+  | setAttrP (a : Attr) (p : PE)        -- `self.<a> = p`
+  | eventsExtend (v : Nat) (p : PE)     -- `v.extend(p['Events'])`
+  | assignInvIndex (v : Nat) (p : PE)   -- `v = {v: k for k, v in p['StringIndex'].items()}`
+  | fromRawLog (dst ev strs : Nat)      -- `dst = OsLogEvent.from_raw_log_event(ev, strs)`
+  | storeLog (d : DictId) (k v : Field) (src : Nat)     -- `self.<d>[src.<k>] = src.<v>` (`src` a log event)
+  | yieldVar (v : Nat)                  -- `yield v` (`v` a log event)
   | unsupported (src : String)
   deriving DecidableEq, Repr
 
@@ -107,7 +168,14 @@ inductive Val
   | bytes (b : Bytes)
   | int (n : Nat)
   | tmap (l : List ThreadEntry)
-  deriving DecidableEq, Repr
+  | blocks (l : List (Bytes × Bytes))   -- the parsed additional data: (tag, data) in file order
+  | block (b : Bytes × Bytes)
+  | plist (payload : Bytes) (v : PView) -- a loaded plist: the payload it was loaded from and what the parser sees of it
+  | events (l : List RawLog)            -- a list of raw log events
+  | strings (l : List (Nat × Bytes))    -- the inverted string index
+  | rawLog (idx : Nat) (e : RawLog)     -- a raw log event and its position in the list it is taken from
+  | logOut (l : LogOut)                 -- an `OsLogEvent`
+  deriving Repr
 
 abbrev Env := Nat → Option Val
 def Env.empty : Env := fun _ => none
@@ -122,6 +190,17 @@ def evalB (env : Env) : BE → Except PyErr Bytes
     match evalB env a with
     | .error x => .error x
     | .ok x => match evalB env b with | .ok y => .ok (x ++ y) | .error e => .error e
+  | .blockTag v => match env v with | some (.block b) => .ok b.1 | _ => .error .unmodelled
+  | .blockData v => match env v with | some (.block b) => .ok b.2 | _ => .error .unmodelled
+  | .unsupported _ => .error .unmodelled
+
+/-- a loaded plist: `plistlib.loads` raises (`ValueError`: `InvalidFileException`) where the parameter says so -/
+def evalP (plist : Bytes → Option PView) (env : Env) : PE → Except PyErr (Bytes × PView)
+  | .var i => match env i with | some (.plist b v) => .ok (b, v) | _ => .error .unmodelled
+  | .loads e =>
+    match evalB env e with
+    | .error x => .error x
+    | .ok b => match plist b with | some v => .ok (b, v) | none => .error .valueError
   | .unsupported _ => .error .unmodelled
 
 def evalI (env : Env) : IE → Except PyErr Nat
@@ -155,6 +234,19 @@ def evalC (env : Env) : Cond → Except PyErr Bool
     | .ok x => match evalB env b with | .ok y => .ok (decide (x = y)) | .error e => .error e
   | .isEmpty e => match evalB env e with | .ok b => .ok (decide (b = [])) | .error x => .error x
   | .nonEmpty e => match evalB env e with | .ok b => .ok (decide (b ≠ [])) | .error x => .error x
+  | .and a b =>
+    match evalC env a with
+    | .error x => .error x
+    | .ok false => .ok false
+    | .ok true => evalC env b
+  | .fieldTruthy v f =>
+    match env v with
+    | some (.logOut l) =>
+      (match f with
+       | .tid => .ok (decide (l.tid ≠ 0))
+       | .pid => .ok (decide (l.pid ≠ 0))
+       | .process => .ok (decide (l.process ≠ [])))
+    | _ => .error .unmodelled
   | .unsupported _ => .error .unmodelled
 
 /-- what the interpreted generator has done so far -/
@@ -162,8 +254,9 @@ structure St (ε : Type) where
   env : Env
   rd : Reader
   tables : Tables
-  hdr : Option (List Nat × Bytes)       -- `self.v3_header`
-  outs : List ε                         -- the values yielded so far, oldest first
+  tmTables : Tables                     -- the tables as the last `set_thread_map` left them (what the records are delivered under)
+  md : V3Meta                           -- `self.v3_header` and the attributes rebuilt from the additional data
+  outs : List (Out ε)                   -- the values yielded so far, oldest first
 
 inductive Signal
   | normal
@@ -174,7 +267,7 @@ inductive Signal
 /-- the meaning of what the interpreted code calls -/
 structure Params (ε : Type) where
   dec : Bytes → Except PyErr ε                    -- `from_kd_buf`
-  plist : Bytes → Option PView                    -- `plistlib.loads` (cpu_info of the v3 header)
+  plist : Bytes → Option PView                    -- `plistlib.loads`
   seek : Bytes → RM Unit                          -- `seek_until(reader, data)`
   setTm : Tables → List ThreadEntry → Tables      -- `self.set_thread_map(threadmap)`
 
@@ -198,8 +291,95 @@ def forLoop {σ : Type} (body : σ → Signal × σ) : Nat → σ → Signal × 
     | (.brk, st') => (.normal, st')
     | (.err e, st') => (.err e, st')
 
+/-- `for x in <items>: body` (`body` gets the item) -/
+def forEach {σ α : Type} (body : α → σ → Signal × σ) : List α → σ → Signal × σ
+  | [], st => (.normal, st)
+  | a :: as, st =>
+    match body a st with
+    | (.normal, st') => forEach body as st'
+    | (.brk, st') => (.normal, st')
+    | (.err e, st') => (.err e, st')
+
+/-- what a `for x in c` loop goes through (the collection as it is at the loop's entry; the translator refuses a body
+    that changes `c`).  A raw log event carries its position, the model's name of the record. -/
+def itemsOf : Val → Option (List Val)
+  | .blocks l => some (l.map .block)
+  | .events l => some (l.zipIdx.map fun p => .rawLog p.2 p.1)
+  | _ => none
+
 /-- the fuel a `while` loop gets at its entry -/
 def loopFuel {ε : Type} (st : St ε) : Nat := st.rd.rest.length + 2
+
+/-! #### the parser attributes (`V3Meta` of the hand model is the state; see `dispatchBlock`) -/
+
+/-- `self.<a> = <display>`: each attribute with the display of its own type -/
+def metaInit (m : V3Meta) : Attr → InitVal → Except PyErr V3Meta
+  | .traceCodes, .emptyStr => .ok { m with traceCodes := [] }
+  | .kernelExtensions, .binariesDict => .ok { m with kexts := [] }
+  | .dyldModules, .emptyDict => .ok { m with dyldBase := none, dyldEmpty := true, dyldBin := none }
+  | .images, .emptyDict => .ok { m with images := none }
+  | .processes, .emptyDict => .ok { m with processes := none }
+  | _, _ => .error .unmodelled
+
+/-- `not self.<a>` -/
+def metaIsEmpty (m : V3Meta) : Attr → Except PyErr Bool
+  | .dyldModules => .ok m.dyldEmpty
+  | _ => .error .unmodelled
+
+/-- `self.<a>.update(p)` (into an EMPTY dict: the result is `p`'s content) -/
+def metaUpdate (m : V3Meta) (p : Bytes × PView) : Attr → Except PyErr V3Meta
+  | .dyldModules =>
+    if m.dyldEmpty then .ok { m with dyldBase := some p.2.others, dyldEmpty := p.2.isEmpty, dyldBin := p.2.binaries }
+    else .error .unmodelled
+  | _ => .error .unmodelled
+
+/-- `self.<a>['Binaries'].extend(p['Binaries'])`: the subscript on the attribute first, then `p` (it may be a
+    `plistlib.loads` call), then its subscript -/
+def metaBinExtend (m : V3Meta) (p : Except PyErr (Bytes × PView)) : Attr → Except PyErr V3Meta
+  | .dyldModules =>
+    match m.dyldBin with
+    | none => .error .keyError
+    | some l =>
+      match p with
+      | .error e => .error e
+      | .ok q => match q.2.binaries with
+        | none => .error .keyError
+        | some l2 => .ok { m with dyldBin := some (l ++ l2) }
+  | .kernelExtensions =>
+    match p with
+    | .error e => .error e
+    | .ok q => match q.2.binaries with
+      | none => .error .keyError
+      | some l2 => .ok { m with kexts := m.kexts ++ l2 }
+  | _ => .error .unmodelled
+
+/-- `self.<a> += b.decode()` -/
+def metaAppendDecoded (m : V3Meta) (b : Bytes) : Attr → Except PyErr V3Meta
+  | .traceCodes => if validUtf8 b then .ok { m with traceCodes := m.traceCodes ++ b } else .error .unicodeError
+  | _ => .error .unmodelled
+
+/-- `self.<a> = p` (the model keeps the payload) -/
+def metaSetP (m : V3Meta) (p : Bytes × PView) : Attr → Except PyErr V3Meta
+  | .images => .ok { m with images := some p.1 }
+  | .processes => .ok { m with processes := some p.1 }
+  | _ => .error .unmodelled
+
+def natField (e : ThreadEntry) : Field → Option Nat
+  | .tid => some e.tid
+  | .pid => some e.pid
+  | .process => none
+
+/-- `self.<d>[x.<k>] = x.<v>` for a thread-map entry / a log event seen as (tid, pid, process) -/
+def storeOne (t : Tables) (e : ThreadEntry) : DictId × Field × Field → Except PyErr Tables
+  | (.threadsPids, k, v) =>
+    match natField e k, natField e v with
+    | some kk, some vv => .ok { t with threadsPids := dictSet kk vv t.threadsPids }
+    | _, _ => .error .unmodelled
+  | (.pidsNames, k, .process) =>
+    match natField e k with
+    | some kk => .ok { t with pidsNames := dictSet kk e.name t.pidsNames }
+    | none => .error .unmodelled
+  | (.pidsNames, _, _) => .error .unmodelled
 
 def execPrim {ε : Type} (P : Params ε) (p : Prim) (v : Nat) (st : St ε) : Signal × St ε :=
   match p with
@@ -209,7 +389,7 @@ def execPrim {ε : Type} (P : Params ε) (p : Prim) (v : Nat) (st : St ε) : Sig
     | (.error e, r) => (.err e, { st with rd := r })
   | .headerV3 =>
     match headerV3 P.plist st.rd with
-    | (.ok h, r) => (.normal, { st with rd := r, hdr := some h })
+    | (.ok h, r) => (.normal, { st with rd := r, md := { st.md with header := some h } })
     | (.error e, r) => (.err e, { st with rd := r })
   | .threadmapV3 =>
     match prefixedBytes st.rd with
@@ -219,6 +399,15 @@ def execPrim {ε : Type} (P : Params ε) (p : Prim) (v : Nat) (st : St ε) : Sig
     match int64ul st.rd with
     | (.ok n, r) => (.normal, { st with rd := r, env := st.env.set v (.int n) })
     | (.error e, r) => (.err e, { st with rd := r })
+  | .additionalData =>
+    match greedyRange blockElem (st.rd.rest.length / 16 + 2) st.rd with
+    | (.ok l, r) => (.normal, { st with rd := r, env := st.env.set v (.blocks l) })
+    | (.error e, r) => (.err e, { st with rd := r })
+
+/-- a statement that only changes the parser attributes -/
+def metaStep {ε : Type} (st : St ε) : Except PyErr V3Meta → Signal × St ε
+  | .ok m => (.normal, { st with md := m })
+  | .error e => (.err e, st)
 
 def exec {ε : Type} (P : Params ε) : Stmt → St ε → Signal × St ε
   | .skip, st => (.normal, st)
@@ -256,7 +445,7 @@ def exec {ε : Type} (P : Params ε) : Stmt → St ε → Signal × St ε
     | .ok b =>
       match P.dec b with
       | .error x => (.err x, st)
-      | .ok ev => (.normal, { st with outs := st.outs ++ [ev] })
+      | .ok ev => (.normal, { st with outs := st.outs ++ [.ev ev] })
   | .callSeek e, st =>
     match evalB st.env e with
     | .error x => (.err x, st)
@@ -267,7 +456,70 @@ def exec {ε : Type} (P : Params ε) : Stmt → St ε → Signal × St ε
   | .prim p v, st => execPrim P p v st
   | .setThreadMap v, st =>
     match st.env v with
-    | some (.tmap l) => (.normal, { st with tables := P.setTm st.tables l })
+    | some (.tmap l) => (.normal, { st with tables := P.setTm st.tables l, tmTables := P.setTm st.tables l })
+    | _ => (.err .unmodelled, st)
+  | .seekRel k, st => (.normal, { st with rd := st.rd.seekTo (st.rd.pos - k) })
+  | .setAttrInit a v, st => metaStep st (metaInit st.md a v)
+  | .newList v, st => (.normal, { st with env := st.env.set v (.events []) })
+  | .newDict v, st => (.normal, { st with env := st.env.set v (.strings []) })
+  | .forIn x c body, st =>
+    match (st.env c).bind itemsOf with
+    | none => (.err .unmodelled, st)
+    | some items => forEach (fun a s => exec P body { s with env := s.env.set x a }) items st
+  | .assignP v p, st =>
+    match evalP P.plist st.env p with
+    | .error x => (.err x, st)
+    | .ok q => (.normal, { st with env := st.env.set v (.plist q.1 q.2) })
+  | .iteAttrEmpty a t e, st =>
+    match metaIsEmpty st.md a with
+    | .error x => (.err x, st)
+    | .ok true => exec P t st
+    | .ok false => exec P e st
+  | .attrUpdate a p, st =>
+    match evalP P.plist st.env p with
+    | .error x => (.err x, st)
+    | .ok q => metaStep st (metaUpdate st.md q a)
+  | .binExtend a p, st => metaStep st (metaBinExtend st.md (evalP P.plist st.env p) a)
+  | .strAppendDecoded a e, st =>
+    match evalB st.env e with
+    | .error x => (.err x, st)
+    | .ok b => metaStep st (metaAppendDecoded st.md b a)
+  | .setAttrP a p, st =>
+    match evalP P.plist st.env p with
+    | .error x => (.err x, st)
+    | .ok q => metaStep st (metaSetP st.md q a)
+  | .eventsExtend v p, st =>
+    match st.env v with
+    | some (.events l) =>
+      (match evalP P.plist st.env p with
+       | .error x => (.err x, st)
+       | .ok q => match q.2.events with
+         | none => (.err .keyError, st)
+         | some l2 => (.normal, { st with env := st.env.set v (.events (l ++ l2)) }))
+    | _ => (.err .unmodelled, st)
+  | .assignInvIndex v p, st =>
+    match evalP P.plist st.env p with
+    | .error x => (.err x, st)
+    | .ok q => match q.2.stringIndex with
+      | none => (.err .keyError, st)
+      | some items => (.normal, { st with env := st.env.set v (.strings (invertIndex items)) })
+  | .fromRawLog dst ev strs, st =>
+    match st.env ev, st.env strs with
+    | some (.rawLog i e), some (.strings s) =>
+      (match KdVerif.fromRawLog s i e with
+       | .error x => (.err x, st)
+       | .ok lo => (.normal, { st with env := st.env.set dst (.logOut lo) }))
+    | _, _ => (.err .unmodelled, st)
+  | .storeLog d k v src, st =>
+    match st.env src with
+    | some (.logOut lo) =>
+      (match storeOne st.tables ⟨lo.tid, lo.pid, lo.process⟩ (d, k, v) with
+       | .ok t => (.normal, { st with tables := t })
+       | .error x => (.err x, st))
+    | _ => (.err .unmodelled, st)
+  | .yieldVar v, st =>
+    match st.env v with
+    | some (.logOut lo) => (.normal, { st with outs := st.outs ++ [.log lo] })
     | _ => (.err .unmodelled, st)
   | .unsupported _, st => (.err .unmodelled, st)
 
@@ -287,40 +539,18 @@ def leafParams : Params Unit :=
 def runSeek (p : Proc) (data : Bytes) : RM Unit := fun r =>
   if p.params ≠ 1 then (.error .unmodelled, r)
   else
-    match exec leafParams p.body ⟨Env.empty.set 0 (.bytes data), r, Tables.empty, none, []⟩ with
+    match exec leafParams p.body ⟨Env.empty.set 0 (.bytes data), r, Tables.empty, Tables.empty, {}, []⟩ with
     | (.normal, st) => (.ok (), st.rd)
     | (.brk, st) => (.error .unmodelled, st.rd)
     | (.err e, st) => (.error e, st.rd)
 
 /-! ### `set_thread_map` -/
 
-inductive Field | tid | pid | process
-  deriving DecidableEq, Repr
-
-inductive DictId | threadsPids | pidsNames
-  deriving DecidableEq, Repr
-
 inductive TmStmt
   | clear (d : DictId)                              -- `self.<d>.clear()`
   | forThreads (body : List (DictId × Field × Field))   -- `for thread in parsed_threadmap: self.<d>[thread.<k>] = thread.<v>`
   | unsupported (src : String)
   deriving DecidableEq, Repr
-
-def natField (e : ThreadEntry) : Field → Option Nat
-  | .tid => some e.tid
-  | .pid => some e.pid
-  | .process => none
-
-def storeOne (t : Tables) (e : ThreadEntry) : DictId × Field × Field → Except PyErr Tables
-  | (.threadsPids, k, v) =>
-    match natField e k, natField e v with
-    | some kk, some vv => .ok { t with threadsPids := dictSet kk vv t.threadsPids }
-    | _, _ => .error .unmodelled
-  | (.pidsNames, k, .process) =>
-    match natField e k with
-    | some kk => .ok { t with pidsNames := dictSet kk e.name t.pidsNames }
-    | none => .error .unmodelled
-  | (.pidsNames, _, _) => .error .unmodelled
 
 def storeAll (t : Tables) (e : ThreadEntry) : List (DictId × Field × Field) → Except PyErr Tables
   | [] => .ok t
@@ -362,7 +592,7 @@ structure Program where
   seekUntil : Proc
   setThreadMap : List TmStmt
   parseV2 : Stmt
-  parseV3 : Stmt                        -- up to the end of the chunk loop
+  parseV3 : Stmt
   parse : Dispatch
   deriving DecidableEq, Repr
 
@@ -380,28 +610,40 @@ structure Result (ε : Type) where
   hdr : Option (List Nat × Bytes)
   rd : Reader
 
+def errOf : Signal → Option PyErr
+  | .normal => none
+  | .brk => some .unmodelled
+  | .err e => some e
+
+/-- a statement run from a state, everything it leaves behind: the values yielded (records and log events in the order
+    of the `yield`s), final exception, tables, the tables of the last `set_thread_map`, parser attributes, reader -/
+def runFrom {ε : Type} (P : Params ε) (body : Stmt) (st : St ε) : Run3 ε :=
+  let x := exec P body st
+  ⟨x.2.outs, errOf x.1, x.2.tables, x.2.tmTables, x.2.md, x.2.rd⟩
+
+/-- the state a generator body starts in -/
+def St.init {ε : Type} (prior : PState) (r : Reader) : St ε := ⟨Env.empty, r, prior.tables, prior.tables, prior.md, []⟩
+
+/-- a generator body that yields records only (`parse_v2`), run to its end -/
 def runGen {ε : Type} (P : Params ε) (body : Stmt) (prior : Tables) (hdr : Option (List Nat × Bytes)) (r : Reader) :
     Result ε :=
-  match exec P body ⟨Env.empty, r, prior, hdr, []⟩ with
-  | (.normal, st) => ⟨st.outs, none, st.tables, st.hdr, st.rd⟩
-  | (.brk, st) => ⟨st.outs, some .unmodelled, st.tables, st.hdr, st.rd⟩
-  | (.err e, st) => ⟨st.outs, some e, st.tables, st.hdr, st.rd⟩
+  let x := runFrom P body (St.init ⟨prior, { header := hdr }⟩ r)
+  ⟨x.events, x.err, x.tables, x.md.header, x.rd⟩
 
 /-! ### the whole `KdBufParser.parse(reader)`, exhausted, through the translated program
 
-  The hand-modelled remainder is `tailV3` (`reader.seek(-8, 1)`, the additional-data blocks, the log records). -/
+  Nothing of `parse_v3` is hand-modelled any more: its tail (`reader.seek(-8, 1)`, the additional-data blocks, the log
+  records) is part of the translated generator; what remains primitive is listed at the head of this file. -/
 
 def viaV2 {ε : Type} (p : Program) (plist : Bytes → Option PView) (dec : Bytes → Except PyErr ε) (prior : PState)
     (r : Reader) : Run3 ε :=
   let x := runGen (p.params dec plist) p.parseV2 prior.tables prior.md.header r
   ⟨x.events.map .ev, x.err, x.tables, x.tables, prior.md, x.rd⟩
 
+/-- the WHOLE translated `parse_v3`, run to its end -/
 def viaV3 {ε : Type} (p : Program) (plist : Bytes → Option PView) (dec : Bytes → Except PyErr ε) (prior : PState)
     (r : Reader) : Run3 ε :=
-  let x := runGen (p.params dec plist) p.parseV3 prior.tables prior.md.header r
-  match x.err with
-  | some e => ⟨x.events.map .ev, some e, x.tables, x.tables, { prior.md with header := x.hdr }, x.rd⟩
-  | none => tailV3 plist x.events x.tables { prior.md with header := x.hdr } x.rd
+  runFrom (p.params dec plist) p.parseV3 (St.init prior r)
 
 def parseVia {ε : Type} (p : Program) (plist : Bytes → Option PView) (dec : Bytes → Except PyErr ε) (prior : PState)
     (data : Bytes) : Run3 ε :=
@@ -410,6 +652,12 @@ def parseVia {ε : Type} (p : Program) (plist : Bytes → Option PView) (dec : B
   | .ok (some .parseV3, r) => viaV3 p plist dec prior r
   | .ok (none, r) => ⟨[], some .keyError, prior.tables, prior.tables, prior.md, r⟩
   | .error e => ⟨[], some e, prior.tables, prior.tables, prior.md, Reader.ofBytes data⟩
+
+/-- what follows the first top-level `while` loop of a statement list (of `parse_v3`: everything behind the chunk loop) -/
+def Stmt.afterLoop : Stmt → Stmt
+  | .seq (.while _ _) k => k
+  | .seq _ k => k.afterLoop
+  | _ => .skip
 
 /-! ### unsupported nodes -/
 
@@ -425,17 +673,27 @@ def IE.hasUnsupported : IE → Bool
   | .sub a b | .div a b => a.hasUnsupported || b.hasUnsupported
   | _ => false
 
+def PE.hasUnsupported : PE → Bool
+  | .unsupported _ => true
+  | .loads e => e.hasUnsupported
+  | .var _ => false
+
 def Cond.hasUnsupported : Cond → Bool
   | .unsupported _ => true
   | .ne a b | .eq a b => a.hasUnsupported || b.hasUnsupported
   | .isEmpty e | .nonEmpty e => e.hasUnsupported
-  | .tt => false
+  | .and a b => a.hasUnsupported || b.hasUnsupported
+  | .tt | .fieldTruthy _ _ => false
 
 def Stmt.hasUnsupported : Stmt → Bool
   | .unsupported _ => true
   | .seq a b => a.hasUnsupported || b.hasUnsupported
   | .read _ n | .readDrop n => n.hasUnsupported
-  | .assign _ e | .yieldKd e | .callSeek e => e.hasUnsupported
+  | .assign _ e | .yieldKd e | .callSeek e | .strAppendDecoded _ e => e.hasUnsupported
+  | .forIn _ _ b => b.hasUnsupported
+  | .iteAttrEmpty _ t e => t.hasUnsupported || e.hasUnsupported
+  | .assignP _ p | .attrUpdate _ p | .binExtend _ p | .setAttrP _ p | .eventsExtend _ p | .assignInvIndex _ p =>
+    p.hasUnsupported
   | .ite c t e => c.hasUnsupported || t.hasUnsupported || e.hasUnsupported
   | .while c b => c.hasUnsupported || b.hasUnsupported
   | .forRange n b => n.hasUnsupported || b.hasUnsupported
